@@ -52,13 +52,13 @@ deriving Repr, DecidableEq
     the removal of somebody else's references by a mutation of an own row
     (findings/C12-mutation-removes-foreign-reference.patch). -/
 def Defects.asImplemented : Defects :=
-  { refRightOnEdgeAuthor := true,        -- findings/C01-C12-ref-deletion-right-on-source-row.patch
+  { refRightOnEdgeAuthor := false,       -- fixed in /repo: findings/C01-C12-ref-deletion-right-on-source-row.patch
     subNodesSkipped := false,            -- fixed: /repo c887d69
     oldRoomLookup := false,              -- fixed: /repo cfb7678
     refDeletionResign := false,          -- fixed: /repo 456214b
     sysRefDeletionUnguarded := false,    -- fixed: /repo f1df104
     incomingRefsUnchecked := true,       -- open (no small repair: findings/C01-node-deletion-incoming-references.md)
-    refRemovalRightOnRowAuthor := true } -- findings/C12-mutation-removes-foreign-reference.patch
+    refRemovalRightOnRowAuthor := false } -- fixed in /repo: findings/C12-mutation-removes-foreign-reference.patch
 /-- /repo before the fixes that this check led to -/
 def Defects.beforeFixes : Defects := ⟨true, true, true, true, true, true, true⟩
 def Defects.none : Defects := ⟨false, false, false, false, false, false, false⟩
